@@ -192,8 +192,8 @@ theorem rollbackPhase_journal (fs : FS) (n : Nat) (s : Sched) :
   unfold rollbackPhase
   split
   · rfl
+  · rfl
   · split
-    · rfl
     · rfl
     · split <;> simp [closeStep_fs]
 
@@ -203,12 +203,12 @@ theorem rollbackPhase_prefix (fs : FS) (a₀ x : Bytes) (s : Sched) (h : fs.byte
   unfold rollbackPhase
   split
   · exact ⟨x, h⟩
-  · rename_i a ha
-    have hb : a = a₀ ++ x := by simpa [FS.bytes, ha] using h
-    split
+  · exact ⟨x, h⟩
+  · split
     · exact ⟨x, h⟩
-    · exact ⟨x, h⟩
-    · split
+    · rename_i a ha
+      have hb : a = a₀ ++ x := by simpa [FS.bytes, ha] using h
+      split
       · exact ⟨x, h⟩
       · exact ⟨x, by simpa [closeStep_fs] using h⟩
       · exact ⟨[], by simp [closeStep_fs, FS.bytes, hb, truncateTo_prefix]⟩
@@ -220,15 +220,15 @@ theorem rollbackPhase_restores (fs : FS) (a₀ x : Bytes) (s : Sched) (h : fs.by
     (rollbackPhase fs a₀.length s).fs.bytes = a₀ := by
   unfold rollbackPhase at hd ⊢
   split
-  · rename_i ha
-    have : a₀ ++ x = [] := by simpa [FS.bytes, ha] using h.symm
-    simp_all [FS.bytes]
-  · rename_i a ha
-    have hb : a = a₀ ++ x := by simpa [FS.bytes, ha] using h
-    split
-    · simp_all [Out.isFail]
-    · simp_all
-    · split
+  · simp_all [Out.isFail]
+  · simp_all
+  · split
+    · rename_i ha
+      have : a₀ ++ x = [] := by simpa [FS.bytes, ha] using h.symm
+      simp_all [FS.bytes]
+    · rename_i a ha
+      have hb : a = a₀ ++ x := by simpa [FS.bytes, ha] using h
+      split
       · simp_all
       · simp_all [Out.isFail]
       · simp [closeStep_fs, FS.bytes, hb, truncateTo_prefix]
@@ -404,6 +404,119 @@ theorem writeRecord_shape (fs : FS) (s : Sched) :
     | fail k => left; simp
     | die k => left; simp
 
+/-! ### the journal names the length -/
+
+def ofDigitsLE : List Nat → Nat
+  | [] => 0
+  | d :: r => ofDigitsLE r * 10 + d
+
+theorem ofDigitsLE_digitsLE : ∀ (fuel n : Nat), n < fuel → ofDigitsLE (digitsLE fuel n) = n
+  | 0, n, h => by omega
+  | fuel + 1, n, h => by
+    unfold digitsLE
+    split
+    · simp [ofDigitsLE]
+    · simp only [ofDigitsLE]
+      rw [ofDigitsLE_digitsLE fuel (n / 10) (by omega)]
+      omega
+
+theorem digitsLE_lt : ∀ (fuel n : Nat), ∀ d ∈ digitsLE fuel n, d < 10
+  | 0, _, d, h => by simp [digitsLE] at h
+  | fuel + 1, n, d, h => by
+    unfold digitsLE at h
+    split at h
+    · simp at h; omega
+    · simp only [List.mem_cons] at h
+      rcases h with h | h
+      · omega
+      · exact digitsLE_lt fuel (n / 10) d h
+
+theorem digitsLE_ne_nil (fuel n : Nat) : digitsLE (fuel + 1) n ≠ [] := by
+  unfold digitsLE; split <;> simp
+
+theorem parseDecimal_reverse (ds : List Nat) :
+    parseDecimal ((ds.map (· + 48)).reverse) = ofDigitsLE ds := by
+  unfold parseDecimal
+  rw [List.foldl_reverse]
+  induction ds with
+  | nil => rfl
+  | cons d r ih => simp [ofDigitsLE, ih]
+
+theorem parseDecimal_decimal (n : Nat) : parseDecimal (decimal n) = n := by
+  unfold decimal
+  rw [parseDecimal_reverse, ofDigitsLE_digitsLE _ _ (by omega)]
+
+theorem decimal_digits (n : Nat) : ∀ c ∈ decimal n, isAsciiDigit c = true := by
+  intro c hc
+  unfold decimal at hc
+  simp only [List.mem_reverse, List.mem_map] at hc
+  obtain ⟨d, hd, rfl⟩ := hc
+  have := digitsLE_lt _ _ d hd
+  simp [isAsciiDigit]; omega
+
+theorem decimal_ne_nil (n : Nat) : decimal n ≠ [] := by
+  unfold decimal
+  simp [digitsLE_ne_nil]
+
+theorem startsWith_append (p x : List Nat) : startsWith (p ++ x) p = true := by
+  induction p with
+  | nil => cases x <;> simp [startsWith]
+  | cons a p ih => simp [startsWith, ih]
+
+theorem takeWhile_append_stop (p : Nat → Bool) (l r : List Nat) (x : Nat)
+    (hl : ∀ c ∈ l, p c = true) (hx : p x = false) : (l ++ x :: r).takeWhile p = l := by
+  induction l with
+  | nil => simp [hx]
+  | cons a l ih =>
+    have ha := hl a (by simp)
+    simp only [List.cons_append, List.takeWhile, ha]
+    rw [ih (fun c hc => hl c (by simp [hc]))]
+
+
+/-! ### more on the phases: where a killed process leaves the journal -/
+
+theorem unlinkStep_died {fs : FS} {tr : Trace} {s : Sched} {st : Status} (hst : st ≠ .died)
+    (h : (unlinkStep fs tr s st).st = some .died) : (unlinkStep fs tr s st).fs = fs := by
+  unfold unlinkStep at h ⊢
+  split
+  · rfl
+  · split <;> simp_all
+
+theorem appendAndFinish_died (jfs : FS) (n : Nat) (s : Sched)
+    (h : (appendAndFinish jfs n s).st = some .died) :
+    (appendAndFinish jfs n s).fs.journal = jfs.journal := by
+  have haj := appendPhase_journal jfs s
+  have hnd := appendPhase_not_done jfs s
+  cases hst : (appendPhase jfs s).st with
+  | none =>
+    have hf : appendAndFinish jfs n s = unlinkStep (appendPhase jfs s).fs (appendPhase jfs s).tr s .done := by
+      simp only [appendAndFinish, hst]
+    rw [hf] at h ⊢
+    rw [unlinkStep_died (by simp) h, haj]
+  | some st =>
+    cases st with
+    | done => exact absurd hst hnd
+    | died =>
+      have hf : appendAndFinish jfs n s = appendPhase jfs s := by simp only [appendAndFinish, hst]
+      rw [hf, haj]
+    | raised =>
+      have hrj := rollbackPhase_journal (appendPhase jfs s).fs n s
+      by_cases hdied : (rollbackPhase (appendPhase jfs s).fs n s).st = some .died
+      · have hf : appendAndFinish jfs n s = ⟨(rollbackPhase (appendPhase jfs s).fs n s).fs,
+            (appendPhase jfs s).tr ++ (rollbackPhase (appendPhase jfs s).fs n s).tr, some .died⟩ := by
+          simp only [appendAndFinish, hst, hdied]
+        rw [hf]; simp only; rw [hrj, haj]
+      · have hf : appendAndFinish jfs n s = unlinkStep (rollbackPhase (appendPhase jfs s).fs n s).fs
+            ((appendPhase jfs s).tr ++ (rollbackPhase (appendPhase jfs s).fs n s).tr) s .raised := by
+          simp only [appendAndFinish, hst]
+        rw [hf] at h ⊢
+        rw [unlinkStep_died (by simp) h, hrj, haj]
+
+theorem endsWith_append (x suf : List Nat) : endsWith (x ++ suf) suf = true := by
+  unfold endsWith
+  rw [List.reverse_append]
+  exact startsWith_append _ _
+
 /-! ## Property theorems
 
 `fs` is the file system before `write_record`, `s` ANY fault schedule (every raw
@@ -510,5 +623,113 @@ theorem always_recoverable (fs : FS) (s : Sched)
       simp [FS.bytes, journalPhase_archive]
     obtain ⟨_, _, h3, _⟩ := appendAndFinish_spec _ fs.bytes s hb (journalPhase_none hn)
     exact h3 ho ht
+
+/-- **The journal names the pre-append length**: reading the journal text back gives the offset. -/
+theorem journal_names_length (n : Nat) : journalOffset? (journalText n) = some n := by
+  unfold journalOffset? journalText
+  simp only [List.append_assoc, startsWith_append, if_true, List.drop_left']
+  have htw : (decimal n ++ [10]).takeWhile isAsciiDigit = decimal n :=
+    takeWhile_append_stop isAsciiDigit (decimal n) [] 10 (decimal_digits n) (by decide)
+  rw [htw]
+  simp [decimal_ne_nil, parseDecimal_decimal]
+
+
+/-- **journal_before_archive_open**: no archive byte is written (the file is not even
+created) while no complete journal exists.  At every instant of every execution -- the
+process killed at any primitive of any schedule -- if the archive differs in any way from
+what it was before, the journal file holds the complete journal text. -/
+theorem journal_before_archive_open (fs : FS) (s : Sched)
+    (hdied : (writeRecord fs s).st = some .died)
+    (hchg : (writeRecord fs s).fs.archive ≠ fs.archive) :
+    (writeRecord fs s).fs.journal = some (journalText fs.bytes.length) := by
+  rcases writeRecord_shape fs s with ⟨h, _⟩ | ⟨st, _, h, _⟩ | ⟨hn, h, hs⟩
+  · rw [h] at hchg; exact absurd rfl hchg
+  · rw [h, journalPhase_archive] at hchg; exact absurd rfl hchg
+  · rw [h, appendAndFinish_died _ _ _ (by rw [← hs]; exact hdied)]
+    exact journalPhase_none hn
+
+/-- **crash_recoverable** (second sentence of C06), for ALL schedules without exception:
+any faults anywhere before the kill (also inside the roll-back), the kill at any
+primitive, after any prefix of any write.  `V` is "is a valid record sequence": the
+archive was valid before, and old bytes + the completely emitted record are valid.
+Then the archive on disk is valid, or the journal on disk names the old length and the
+archive cut to that length is valid (it is the old archive). -/
+theorem crash_recoverable (V : Bytes → Prop) (fs : FS) (s : Sched)
+    (hdied : (writeRecord fs s).st = some .died)
+    (hV0 : V fs.bytes) :
+    V (writeRecord fs s).fs.bytes ∨
+    (∃ j, (writeRecord fs s).fs.journal = some j ∧ journalOffset? j = some fs.bytes.length ∧
+      ((writeRecord fs s).fs.bytes).take fs.bytes.length = fs.bytes ∧
+      V (((writeRecord fs s).fs.bytes).take fs.bytes.length)) := by
+  by_cases hchg : (writeRecord fs s).fs.archive = fs.archive
+  · left; simp only [FS.bytes, hchg]; exact hV0
+  · right
+    refine ⟨_, journal_before_archive_open fs s hdied hchg, journal_names_length _, ?_, ?_⟩
+    · exact earlier_bytes_intact fs s
+    · rw [earlier_bytes_intact fs s]; exact hV0
+
+/-- The hypothesis of `fault_restores` / `always_recoverable` is needed, and this is exactly
+the state it excludes: when the roll-back cannot open (or truncate) the archive, the tail of
+the failed append stays behind the old bytes and `finally` still removes the journal. -/
+theorem rollback_fault_counterexample :
+    ∃ (fs : FS) (s : Sched), fs.journal = none ∧ (writeRecord fs s).status = .raised ∧
+      (writeRecord fs s).fs = ⟨some [1, 2], none⟩ ∧ fs.bytes = [1] ∧
+      ¬ Recoverable fs.bytes s (writeRecord fs s).fs :=
+  ⟨⟨some [1], none⟩, { awrites := [([2, 3], .fail 1)], ropen := .fail 0 }, by decide, by decide, by decide,
+    by decide, by
+      intro h
+      rcases h with h | ⟨⟨hc, _⟩, _⟩ | ⟨h, _⟩
+      · revert h; decide
+      · have := hc ([2, 3], .fail 1) (by simp); simp at this
+      · revert h; decide⟩
+
+/-- **startup_refuses**: while the journal of any archive of this prefix (plain, numbered
+`-00000`, `-meta`; gzip or not) is in the directory, `_check_journals_and_maybe_raise` raises. -/
+theorem startup_refuses (namePrefix seq : Str) (compress : Bool) (listing : List Str)
+    (h : journalName namePrefix seq compress ∈ listing) : startupRefuses namePrefix listing = true := by
+  unfold startupRefuses
+  rw [List.any_eq_true]
+  refine ⟨_, h, ?_⟩
+  unfold isJournalName journalName warcName
+  rw [Bool.and_eq_true]
+  constructor
+  · rw [List.append_assoc, List.append_assoc]; exact startsWith_append _ _
+  · exact endsWith_append _ _
+
+/-- and only then: without a file that carries the prefix and the journal suffix the run starts -/
+theorem startup_starts (namePrefix : Str) (listing : List Str)
+    (h : ∀ name ∈ listing, isJournalName namePrefix name = false) :
+    startupRefuses namePrefix listing = false := by
+  unfold startupRefuses
+  rw [List.any_eq_false]
+  intro x hx; simp [h x hx]
+
+/-! ### non-vacuity: concrete schedules that meet the hypotheses -/
+
+-- OSError after 1 byte of the first raw write, the layer re-issues the write while closing: rolled back
+example : (writeRecord ⟨some [1, 2, 3], none⟩ { awrites := [([4, 5], .fail 1), ([4, 5], .ok)] }).status = .raised ∧
+    (writeRecord ⟨some [1, 2, 3], none⟩ { awrites := [([4, 5], .fail 1), ([4, 5], .ok)] }).fs
+      = ⟨some [1, 2, 3], none⟩ := by decide
+-- three faults (write, close of the archive, close of the roll-back): still restored
+example : (writeRecord ⟨some [1, 2, 3], none⟩
+      { awrites := [([4, 5], .fail 2)], aclose := .fail 0, rclose := .fail 0 }).fs = ⟨some [1, 2, 3], none⟩ := by decide
+-- journal write fails after 5 bytes, retry works: journal removed, archive untouched
+example : (writeRecord ⟨some [1, 2, 3], none⟩ { jwrite := .fail 5 }).fs = ⟨some [1, 2, 3], none⟩ ∧
+    (writeRecord ⟨some [1, 2, 3], none⟩ { jwrite := .fail 5 }).status = .raised := by decide
+-- killed after 1 byte of the second write: journal names length 3, old bytes in front
+example : (writeRecord ⟨some [1, 2, 3], none⟩ { awrites := [([4], .ok), ([5, 6], .die 1)] }).fs
+      = ⟨some [1, 2, 3, 4, 5], some (journalText 3)⟩ ∧
+    (writeRecord ⟨some [1, 2, 3], none⟩ { awrites := [([4], .ok), ([5, 6], .die 1)] }).st = some .died := by decide
+-- killed between truncate and close of the roll-back
+example : (writeRecord ⟨some [1, 2, 3], none⟩ { awrites := [([4], .fail 1)], rclose := .die 0 }).fs
+      = ⟨some [1, 2, 3], some (journalText 3)⟩ := by decide
+-- fault-free append
+example : (writeRecord ⟨some [1, 2, 3], none⟩ { awrites := [([4], .ok), ([5, 6], .ok)] }).fs
+      = ⟨some [1, 2, 3, 4, 5, 6], none⟩ ∧
+    (writeRecord ⟨some [1, 2, 3], none⟩ { awrites := [([4], .ok), ([5, 6], .ok)] }).st = some .done := by decide
+example : journalOffset? (journalText 1234567) = some 1234567 := by decide
+example : journalText 468 = lit "wpull-journal-version:1\noffset:468\n" := by decide
+example : startupRefuses (lit "site[1]") [lit "site[1]-00003.warc.gz-wpullinc"] = true := by decide
+example : startupRefuses (lit "site") [lit "site.warc.gz", lit "other.warc-wpullinc"] = false := by decide
 
 end Wpull.WarcWrite
